@@ -418,6 +418,28 @@ Definition view_outcome_p (pr : params) (c : config) (r : request) : outcome :=
 
 Definition view_outcome (c : config) (r : request) : outcome := view_outcome_p (the_params (c_storage c)) c r.
 
+(* ------------------------------------------------------------------ leaves used by the regenerated program
+   (coq/Gen/Facts_C12_prog.v, harness/c12/translate.py): Python's None tests, the options utility as
+   csrf_view finds it, the session object's own token methods, the outcome of a check as a truth value *)
+Definition is_none (o : option text) : bool := match o with None => true | Some _ => false end.
+Definition is_none_l (o : option (list text)) : bool := match o with None => true | Some _ => false end.
+Definition or_nil (o : option (list text)) : list text := match o with Some l => l | None => [] end.
+(* info.registry.queryUtility(IDefaultCSRFOptions) when the view is derived *)
+Definition registered_options (c : config) : option options :=
+  match c_defaults c with
+  | None => None
+  | Some d => if negb (defaults_visible (c_defaults_first c)) then None else Some (effective c)
+  end.
+Definition is_none_o (o : option options) : bool := match o with None => true | Some _ => false end.
+Definition or_options (o : option options) : options := match o with Some x => x | None => builtin_options end.
+(* pyramid.session CookieSession.get_csrf_token (`is None`) as seen through the held token *)
+Definition session_token (st : option text) (fresh : text) : text := match st with Some t => t | None => fresh end.
+Definition session_store (st : option text) (fresh : text) : option text := match st with Some t => Some t | None => Some fresh end.
+(* `if not policy.check_csrf_token(..)`: the truth value, or the exception that propagates *)
+Definition verdict_bool (v : tverdict) : option bool :=
+  match v with TPass => Some true | TFail => Some false | TRaise _ => None end.
+Definition verdict_error (v : tverdict) : tverdict := v.
+
 (* ------------------------------------------------------------------ sequences of requests by several clients *)
 (* Per-client state = the token its session / csrf cookie holds.  A request may carry the
    placeholder U+10FFFE as a header or form value, meaning "the token this client holds now"
